@@ -461,6 +461,15 @@ func c10Gen(r *Rng, tier string, idx int) (string, func() string) {
 		return "src udp opens 1 sched udpFail", func() string { return lcUDPFail(idx, false) }
 	case idx == 1:
 		return "src udp opens 1 sched udpBusy", func() string { return lcUDPFail(idx, true) }
+	case idx == 2 || idx == 130 || (tier == "thorough" && idx%97 == 5):
+		kd := []string{"tri", "loop", "sim"}[idx%3]
+		holdMs := 3200 + 300*(idx%3)
+		if tier == "thorough" && idx != 2 && idx != 130 {
+			holdMs = 3500 + 500*(idx%4)
+		}
+		at := idx % 2
+		return fmt.Sprintf("src %s opens 0 sched holdStop at %d holdms %d", kd, at, holdMs),
+			func() string { return lcHoldStop(kd, idx, at, holdMs) }
 	case c < 4:
 		rounds := r.Range(1, 2)
 		nreq := r.Range(1, 3)
@@ -794,6 +803,47 @@ func lcStopDecided(kind string, idx int, second bool) string {
 	lcWaitTrace(time.Second, func(tr []dastard.VerifEvent) bool { return lcCount(tr, "run.deactivate") > 0 })
 	lcSettle()
 	h.spawnStart().wait(3 * time.Second) // the same object must be startable again
+	return h.finish(true)
+}
+
+// lcHoldStop: the core loop is held at a gate (at 0: in front of its select, at 1: right after it has taken a block,
+// i.e. "inside" block processing) for longer than any plausible timeout while a Stop call is pending.  Stop must
+// not return during the hold: the run is still alive.  After the release the usual post-conditions are checked
+// and the same object is started again.
+func lcHoldStop(kind string, idx, at, holdMs int) string {
+	h := lcNew(kind, idx)
+	dastard.VerifPointsOn()
+	s := h.spawnStart()
+	if !s.wait(3*time.Second) || s.ret != 0 {
+		return h.finish(true)
+	}
+	h.flagOn()
+	if kind == "loop" {
+		h.feedBlocks(3, false)
+	}
+	site := []string{"loop.select", "loop.gotBlock"}[at]
+	dastard.VerifGate(site)
+	// wait until the loop is parked there
+	lcWaitTrace(2*time.Second, func([]dastard.VerifEvent) bool {
+		for _, w := range dastard.VerifParked() {
+			if w.Site == site {
+				return true
+			}
+		}
+		return false
+	})
+	k := h.spawnStopNoSettle()
+	returned := k.wait(time.Duration(holdMs) * time.Millisecond)
+	// what the real object says while the loop is still held
+	dastard.VerifNote(fmt.Sprintf("obs.hold.%d.%d", b2i(returned), int(h.ds.GetState())))
+	h.openGates()
+	k.wait(5 * time.Second)
+	lcWaitTrace(2*time.Second, func(tr []dastard.VerifEvent) bool { return h.ds.GetState() == dastard.Inactive })
+	h.feedWG.Wait()
+	lcSettle()
+	if h.ds.GetState() == dastard.Inactive {
+		h.spawnStart().wait(3 * time.Second) // restartable
+	}
 	return h.finish(true)
 }
 
